@@ -6,6 +6,7 @@
      obs.osb  = [{g, s}]      every group 1..gdc-1 whose first block is a valid superblock copy (magic, group number, checksum)
      obs.ogd  = [{g, gd}]     the old-style descriptor table behind each such copy (no meta_bg)
      obs.omg  = [{m, k, v}]   meta_bg: descriptor block m as found in the 2nd (k = 1) / last (k = 2) group of meta group m
+     geo      = {bs, bpg, first}   block size, blocks per group, first data block of the primary superblock (never change)
    A tool line must be the step the corresponding action of Backups.tla takes from the CURRENT SPEC STATE, and the state
    the action produces must be what was observed at every prescribed location (Match); no group outside the prescribed
    set may hold a current copy (exactness).  Recovery lines: wherever the model says the location restores the primary,
@@ -26,7 +27,7 @@ ObsMg(o, mk) == LET r == Pick(o.omg, LAMBDA x : x.m = mk[1] /\ x.k = mk[2]) IN I
 NS == L.obs.prim.sb
 NG == L.obs.prim.gd
 \* the state reached = the observation, at every prescribed location; nothing current elsewhere
-Match == /\ prim' = [sb |-> <<NS>>, gd |-> NG]
+Match == /\ prim' = [sb |-> <<NS>>, gd |-> NG] /\ geo' = L.geo
          /\ \A g \in SbLocs(NS) : sbk'[g] = ObsSb(L.obs, g)
          /\ \A g \in GdLocs(NS) : gdk'[g] = ObsGd(L.obs, g)
          /\ \A mk \in MgLocs(NS) : mgk'[mk] = ObsMg(L.obs, mk)
@@ -35,7 +36,7 @@ Match == /\ prim' = [sb |-> <<NS>>, gd |-> NG]
 \* e2fsck -fn after the tool run (after the e2fsck tune2fs asked for, when it asks): the image the next step and the
 \* recovery experiment start from is consistent
 Clean == L.fn = 0
-TMkfs == IsEvent("mkfs") /\ Mkfs(NS, NG) /\ Match
+TMkfs == IsEvent("mkfs") /\ Mkfs(NS, NG, L.geo) /\ Match
 TResize == IsEvent("resize") /\ Resize(NS, NG) /\ Match /\ Clean
 TResize64 == IsEvent("resize64") /\ Resize64(NS, NG) /\ Match /\ Clean
 TTuneFeat == IsEvent("tunefeat") /\ (\E full \in BOOLEAN : TuneFeature(NS, NG, full)) /\ Match /\ Clean
@@ -45,11 +46,11 @@ TTuneISize == IsEvent("isize") /\ TuneISize(NS, NG) /\ Match /\ Clean
 TEnv == IsEvent("env") /\ EnvPrimary(NS, NG) /\ Match
 \* corruption that leaves superblock fields, table locations and backups alone (a wrong free count)
 TEnvData == IsEvent("envdata") /\ Alive /\ last # "env" /\ NS = Cur /\ NG = prim.gd /\ last' = "env"
-            /\ UNCHANGED <<prim, sbk, gdk, mgk, steps, saved, rec>> /\ Match
+            /\ UNCHANGED <<prim, sbk, gdk, mgk, steps, saved, rec, geo>> /\ Match
 \* the first backup copy is stale (harness writes an older feature word into it)
 TEnvBackup == /\ IsEvent("envbk") /\ Alive /\ last # "env" /\ L.g = FirstCopy /\ L.g # 0
               /\ sbk' = [sbk EXCEPT ![L.g] = ObsSb(L.obs, L.g)] /\ sbk'[L.g] # <<>> /\ last' = "env"
-              /\ UNCHANGED <<prim, gdk, mgk, steps, saved, rec>> /\ Match
+              /\ UNCHANGED <<prim, gdk, mgk, steps, saved, rec, geo>> /\ Match
 TFsck == /\ IsEvent("fsck")
          /\ IF L.frombackup = 1 THEN FsckFromBackup ELSE \E force \in BOOLEAN : FsckRepair(force)
          /\ Match /\ Clean
@@ -65,13 +66,15 @@ Success == /\ L.rc \in {0, 1} /\ L.fn = 0 /\ L.tree_post = L.tree_pre /\ L.parse
 \* e2fsck -fy -b <first block of group g> -B <bs> after the primary was zeroed
 TRecover == /\ IsEvent("recover") /\ Alive /\ last # "env"
             /\ L.g \in SbLocs(Cur)                                   \* the harness asks only for prescribed locations
+            /\ L.geo = geo /\ L.blk * Kb(geo.bs) = GroupAt(geo.bs, geo.bpg, geo.first, L.g)     \* -b <first block of the group> -B <bs>
             /\ (Restores(L.g) => Success)
             /\ UNCHANGED vars
-\* plain e2fsck -fy (default group size): get_backup_sb probes the sparse_super list of groups in order
-TPlain == /\ IsEvent("plain") /\ Alive /\ last # "env"
-          /\ IF DevBackupSearchIgnoresSs2
-             THEN LET C == {g \in ListedGroups(Cur.gdc) : sbk[g] # <<>>} IN (C # {} /\ Restores(SetMin(C))) => Success
-             ELSE (\E g \in SbLocs(Cur) : Restores(g)) => Success          \* the property: a usable prescribed backup exists => plain e2fsck restores
+\* plain e2fsck -fy after the primary was zeroed ("Superblock invalid, trying backup blocks..."): get_backup_sb runs
+\* without a superblock -- every block size, guessed group size (Backups!Search with known = FALSE; the copies are where
+\* the model's state has them, the experiment runs on a copy).  The property obliges plain e2fsck when the group size
+\* is the default: whenever a copy the search can end with restores the primary, the recovery must succeed.
+TPlain == /\ IsEvent("plain") /\ Alive /\ last # "env" /\ L.geo = geo
+          /\ (PlainObliged(Cur) /\ \E g \in Search(Cur, FALSE) : Restores(g)) => Success
           /\ UNCHANGED vars
 TraceInit == Blank /\ l = 1
 TraceNext == TMkfs \/ TResize \/ TResize64 \/ TTuneFeat \/ TTuneUUID \/ TTuneISize \/ TEnv \/ TEnvData \/ TEnvBackup \/ TFsck \/ TRecover \/ TPlain
